@@ -7,13 +7,16 @@ PLUGIN_CRATE = "swc_plugin_vue_jsx"
 
 
 class Facts:
-    def __init__(self, facts_dir):
+    def __init__(self, facts_dir, rename=None):
+        """rename: {crate name in the fact file: name to present it as} (used for the positive-controls crate)"""
         self.dir = facts_dir
         self.crates = {}
         for f in sorted(os.listdir(facts_dir)):
             if f.endswith(".json"):
                 with open(os.path.join(facts_dir, f)) as fh:
                     d = json.load(fh)
+                if rename and d["crate"] in rename:
+                    d["crate"] = rename[d["crate"]]
                 self.crates[d["crate"]] = d
         self.hir = []      # all HIR bodies (fn / assoc fn), each tagged with crate
         self.mir = []      # all MIR bodies incl. closures
